@@ -231,6 +231,20 @@ pub struct ReplayFile {
     pub case: Value,
 }
 
+/// A panic inside the harness itself (not inside a contract: those are caught where the contract is called) must not take
+/// the process down with exit code 101: it is reported as a harness error (inconclusive, exit 2).
+fn run_case_safe<P: Property>(p: &P, case: &P::Case, ctx: &Ctx) -> Outcome {
+    match std::panic::catch_unwind(std::panic::AssertUnwindSafe(|| p.run_case(case, ctx))) {
+        Ok(o) => o,
+        Err(e) => {
+            let msg = e.downcast_ref::<String>().cloned().or_else(|| e.downcast_ref::<&str>().map(|s| s.to_string())).unwrap_or_else(|| "panic".into());
+            let mut o = Outcome::default();
+            o.harness_error = Some(format!("harness panic: {}", msg));
+            o
+        }
+    }
+}
+
 fn list_replays(id: &str) -> Vec<PathBuf> {
     let dir = Path::new(&verif_dir()).join("replays").join(id);
     let mut v: Vec<PathBuf> = match std::fs::read_dir(&dir) {
@@ -303,7 +317,7 @@ pub fn replay_one<P: Property>(p: &P, path: &Path, verbose: bool) -> i32 {
             return 2;
         }
     };
-    let out = p.run_case(&case, &ctx);
+    let out = run_case_safe(p, &case, &ctx);
     if verbose {
         println!("counters: {:?}", out.counters);
         if let Some(s) = &out.summary {
@@ -379,7 +393,7 @@ pub fn drive<P: Property>(p: &P, tier: Tier) -> i32 {
                     continue;
                 }
             };
-            let out = p.run_case(&case, &ctx);
+            let out = run_case_safe(p, &case, &ctx);
             replayed += 1;
             total.evaluations += 1;
             for (k, n) in &out.counters {
@@ -443,7 +457,7 @@ pub fn drive<P: Property>(p: &P, tier: Tier) -> i32 {
                     let agg = std::cell::RefCell::new(ThreadAgg::default());
                     let result = runner.run(&strat, |case| {
                         let counting = !agg.borrow().failed;
-                        let out = p.run_case(&case, &ctx);
+                        let out = run_case_safe(p, &case, &ctx);
                         let mut a = agg.borrow_mut();
                         if counting {
                             a.evaluations += 1;
@@ -461,7 +475,7 @@ pub fn drive<P: Property>(p: &P, tier: Tier) -> i32 {
                                         tier,
                                         want_summary: true,
                                     };
-                                    let o2 = p.run_case(&case, &ctx2);
+                                    let o2 = run_case_safe(p, &case, &ctx2);
                                     a.samples.push(json!({"case": case, "summary": o2.summary}));
                                 }
                             }
@@ -479,7 +493,7 @@ pub fn drive<P: Property>(p: &P, tier: Tier) -> i32 {
                     });
                     let mut found = None;
                     if let Err(TestError::Fail(_, minimal)) = result {
-                        let out = p.run_case(&minimal, &ctx);
+                        let out = run_case_safe(p, &minimal, &ctx);
                         if let Some(v) = out.violation {
                             found = Some((minimal, v));
                         } else {
@@ -680,7 +694,7 @@ pub fn fuzz_one<P: Property>(p: &P, data: &[u8]) -> Option<String> {
             tier: Tier::Quick,
             want_summary: false,
         };
-        let out = p.run_case(&case, &ctx);
+        let out = run_case_safe(p, &case, &ctx);
         out.violation.map(|v| write_replay(id, &case, &v, "libfuzzer", 0).display().to_string())
     })
 }
